@@ -40,6 +40,9 @@ CHECKS = {
  "C14": dict(cat="exploration", design="§3 C14", technique="exhaustive enumeration of (IR tree | corpus tx) x per-type boundary argument alphabets x stores x protocol parameters, every back-end entry point driven in isolated workers",
    text="Every tirgen tree (depth 1, thorough: 2) and every corpus tx is driven through resolve_tx and through each stage (apply_args, apply_fees, reduce, compiler ops, apply_inputs, reduce, compile on possibly non-constant IR) for every value of the boundary alphabet of each parameter (37 integers, byte / address lengths incl. 27..29, 31..33, 56..58, txid lengths, 9 wrong-typed values), 4 stores (empty, odd UTxOs, extreme amounts) and 6 protocol-parameter sets (missing cost models, 0 and 2^64-1 fee coefficients). Every call must return.",
    note="One non-default argument at a time (pairs in thorough for IR trees via nesting); panic signatures are function + normalised message."),
+ "C16": dict(cat="exploration", design="§3 C16", technique="exhaustive enumeration of values x encodings and of every single-character edit of every valid encoding, oracle = independently written strict codec",
+   text="Every boundary integer / boolean spelling / byte length 0..33 / address form / utxo ref in every documented encoding must invert; every single-character edit of every valid string encoding and 36 JSON values of every kind, against all 5 argument types, must be accepted exactly when an independently written strict decoder (own hex, base64, bech32) says the text denotes the returned value; requests with 0..3 declared parameters in all 2^n args/env splits, undeclared extras and 12 envelope variants must yield exactly the declared subset or an error, never a panic.",
+   note="Strict codec embodies my reading of the documented encodings (signed decimal strings, one optional 0x, bech32 with any prefix); multi-character corruptions only via the JSON-kind list."),
 }
 PENDING = {}
 
